@@ -28,7 +28,7 @@ the sense that dropping it admits a counterexample (checked by `decide` in `Prop
       -- some [atom 1, tand, atom 2, tor, atom 3], read as (1 and 2) or 3
   (same output with `{ wildF1 with inOk := false }` and with `field := none` on both patterns).
   A single pattern needs no condition (it is rendered as one atom either way).
-No condition on `atom`, `not`, `and`, `or`, `none` beyond the recursive ones. -/
+No condition on `atom`, `nex`, `not`, `and`, `or`, `none` beyond the recursive ones. -/
 mutual
 def wfTree : CT → Bool
   | .atom _ _ => true
@@ -38,6 +38,7 @@ def wfTree : CT → Bool
       | [] => false
       | [_] => true
       | p :: _ => p.2.field.isSome && as.all (fun q => q.2.field == p.2.field && q.2.inOk)
+  | .nex _ _ => true
   | .not c => wfTree c
   | .and cs => wfTreeL cs
   | .or cs => wfTreeL cs
@@ -60,13 +61,14 @@ theorem wfTreeL_mem {cs : List CT} (h : wfTreeL cs = true) : ∀ c ∈ cs, wfTre
 /-- induction principle for the nested inductive `CT` -/
 theorem CT.ind {P : CT → Prop}
     (atom : ∀ a i, P (.atom a i)) (exp : ∀ as, P (.exp as)) (cidr : ∀ as, P (.cidr as))
+    (nex : ∀ a i, P (.nex a i))
     (not : ∀ c, P c → P (.not c))
     (and : ∀ cs, (∀ c ∈ cs, P c) → P (.and cs))
     (or : ∀ cs, (∀ c ∈ cs, P c) → P (.or cs))
     (none : P .none) : ∀ c, P c := by
   intro c
   exact CT.rec (motive_1 := P) (motive_2 := fun cs => ∀ c ∈ cs, P c)
-    atom exp cidr (fun c ih => not c ih) (fun cs ih => and cs ih) (fun cs ih => or cs ih) none
+    atom exp cidr nex (fun c ih => not c ih) (fun cs ih => and cs ih) (fun cs ih => or cs ih) none
     (by simp) (fun c cs ih1 ih2 x hx => by
       rcases List.mem_cons.1 hx with rfl | hx
       · exact ih1
@@ -357,11 +359,21 @@ theorem G_not {k : Cfg} (hk : k.wf = true) {f : Nat} {t v} (h : G k f (ix k .not
   rw [hts] at he ⊢
   rw [List.length_cons, rNot_ne _ _ _ _ hx, he]
 
+/-- NOT in front of an expression that is itself read at the NOT level (`NOT NOT x`) -/
+theorem G_not2 {k : Cfg} (hk : k.wf = true) {f : Nat} {t v} (h : G k f (ix k .not + 1) t v) :
+    G k f (ix k .not + 1) (.tnot :: t) (fun ρ => !v ρ) := by
+  intro R hR
+  obtain ⟨e, he, hv⟩ := h R hR
+  refine ⟨.not e, ?_, fun ρ => by simp [QE.denote, hv]⟩
+  rw [lev_succ hk] at he ⊢
+  simp only [rLevel] at he
+  simp only [rLevel, List.cons_append, List.length_cons, rNot, he]
+
 /-! ## Vanishing: a query is emitted iff the tree did not vanish -/
 
 mutual
 def alive : CT → Bool
-  | .atom _ _ => true | .exp _ => true | .cidr _ => true
+  | .atom _ _ => true | .exp _ => true | .cidr _ => true | .nex _ _ => true
   | .not c => alive c | .and cs => aliveL cs | .or cs => aliveL cs | .none => false
 def aliveL : List CT → Bool
   | [] => false
@@ -371,15 +383,17 @@ end
 def cls (k : Cfg) : CT → Option Op
   | .atom _ _ => none | .exp _ => some .or
   | .cidr _ => if cidrAsOr k then some .or else none
+  | .nex _ _ => some .not
   | .not _ => some .not | .and _ => some .and | .or _ => some .or | .none => none
 
 def compound (k : Cfg) : CT → Bool
   | .and _ => true | .or _ => true | .not _ => true | .exp _ => true
   | .cidr _ => cidrAsOr k | _ => false
 
-theorem compound_cls (k : Cfg) (c : CT) : compound k c = (cls k c).isSome := by
-  cases c <;> simp [compound, cls]
-  cases cidrAsOr k <;> simp
+/-- the nodes NOT does not group: atoms (class `none`) and the negative existence test -/
+theorem compound_false_cls (k : Cfg) (c : CT) (h : compound k c = false) :
+    cls k c = none ∨ ∃ a i, c = .nex a i := by
+  cases c <;> simp_all [compound, cls]
 
 theorem convert_not (k : Cfg) (neg : Bool) (c : CT) : convert k neg (.not c) =
     match (if compound k c then group (convert k true c) else convert k true c) with
@@ -409,6 +423,7 @@ theorem evalList_nil_iff (ρ : Nat → Bool) (cs : List CT)
 
 theorem evalCT_isSome (ρ : Nat → Bool) : ∀ c, (evalCT ρ c).isSome = alive c := by
   apply CT.ind
+  · intros; simp [evalCT, alive]
   · intros; simp [evalCT, alive]
   · intros; simp [evalCT, alive]
   · intros; simp [evalCT, alive]
@@ -458,6 +473,9 @@ theorem convert_isSome (k : Cfg) :
     have : as.isEmpty = false := by cases as <;> simp_all [wfTree]
     simp only [convert, alive]
     split <;> simp [altsOr_isSome, this]
+  · intro a i _ neg
+    simp only [convert, alive]
+    split <;> rfl
   · intro c ih hw neg
     simp only [wfTree] at hw
     have := ih hw true
@@ -831,7 +849,7 @@ theorem main_inv {k : Cfg} (hk : k.wf = true) (hn : k.notAsNotEq = false) :
     intro as hw neg q f hq _
     have hne : as ≠ [] := by cases as <;> simp_all [wfTree]
     refine ⟨fun ρ => as.any (fun p => ρ p.1), fun ρ => by simp [evalCT], ?_⟩
-    have := altsOr_chain hk hn f false as hne
+    have := altsOr_chain hk hn f neg as hne
     cases as with
     | nil => exact absurd rfl hne
     | cons p as' =>
@@ -872,6 +890,13 @@ theorem main_inv {k : Cfg} (hk : k.wf = true) (hn : k.notAsNotEq = false) :
         | p :: p' :: as', hw, _, _, hdec =>
           simp only [wfTree] at hw
           exact absurd (decideIn_cidr hc' p (p' :: as') hw) hdec
+  · -- nex
+    intro a i _ neg q f hq _
+    simp only [convert, atomTok, hn, Bool.false_and, Bool.false_eq_true, if_false,
+      Option.some.injEq] at hq
+    subst hq
+    refine ⟨fun ρ => !ρ a, fun ρ => by simp [evalCT], ?_⟩
+    exact G_not hk (G_lift hk (Nat.zero_le _) (Nat.le_of_lt (ix_lt hk _)) (G_atom k f a))
   · -- not
     intro c ih hw neg q f hq hf
     simp only [wfTree] at hw
@@ -884,10 +909,13 @@ theorem main_inv {k : Cfg} (hk : k.wf = true) (hn : k.notAsNotEq = false) :
       simp only [Option.some.injEq] at hq
       subst hq
       have hfg : nlp g ≤ f := by simpa [nlp] using hf
-      suffices h : ∃ v, (∀ ρ, evalCT ρ c = some (v ρ)) ∧ G k f 0 g v by
+      suffices h : ∃ v, (∀ ρ, evalCT ρ c = some (v ρ)) ∧
+          (G k f 0 g v ∨ G k f (ix k .not + 1) g v) by
         obtain ⟨v, hv, hG⟩ := h
         refine ⟨fun ρ => !v ρ, fun ρ => by simp [evalCT, hv], ?_⟩
-        exact G_not hk (G_lift hk (Nat.zero_le _) (Nat.le_of_lt (ix_lt hk _)) hG)
+        rcases hG with hG | hG
+        · exact G_not hk (G_lift hk (Nat.zero_le _) (Nat.le_of_lt (ix_lt hk _)) hG)
+        · exact G_not2 hk hG
       by_cases hcomp : compound k c = true
       · rw [if_pos hcomp] at hg
         cases hc : convert k true c with
@@ -898,14 +926,13 @@ theorem main_inv {k : Cfg} (hk : k.wf = true) (hn : k.notAsNotEq = false) :
           rw [nlp_group] at hfg
           obtain ⟨f, rfl⟩ : ∃ m, f = m + 1 := ⟨f - 1, by omega⟩
           obtain ⟨v, hv, hr⟩ := ih hw true t f hc (by omega)
-          exact ⟨v, hv, G_group hk (Rd_top hk hr)⟩
+          exact ⟨v, hv, Or.inl (G_group hk (Rd_top hk hr))⟩
       · rw [if_neg hcomp] at hg
         obtain ⟨v, hv, hr⟩ := ih hw true g f hg hfg
-        have hcl : cls k c = none := by
-          have := compound_cls k c
-          cases h : cls k c <;> simp_all
-        rw [hcl] at hr
-        exact ⟨v, hv, hr⟩
+        rcases compound_false_cls k c (by simpa using hcomp) with hcl | ⟨a, i, rfl⟩
+        · rw [hcl] at hr
+          exact ⟨v, hv, Or.inl hr⟩
+        · exact ⟨v, hv, Or.inr hr⟩
   · -- and
     intro cs ih hw neg q f hq hf
     simp only [wfTree] at hw
@@ -971,11 +998,13 @@ theorem convert_none_iff (k : Cfg) (neg : Bool) (c : CT) (hc : wfTree c = true) 
 /-- the query with its parentheses removed -/
 def stripParens (q : List QTok) : List QTok := q.filter (fun t => t != .lp && t != .rp)
 
-/-- atom descriptors used in the examples: a plain string of field 1 / field 2, a number -/
+/-- atom descriptors used in the examples: a plain string of field 1 / field 2, a number, a wildcard string -/
 def strF1 : AtomInfo := { field := some 1, inOk := true, special := false, negatable := true }
 def strF2 : AtomInfo := { field := some 2, inOk := true, special := false, negatable := true }
 def numF1 : AtomInfo := { field := some 1, inOk := true, special := false, negatable := false }
 def wildF1 : AtomInfo := { field := some 1, inOk := true, special := true, negatable := true }
+/-- the exists-atom below a negative existence test (`CT.nex`): no value class, no negated twin -/
+def exF1 : AtomInfo := { field := some 1, inOk := false, special := false, negatable := false }
 
 def cfg (prec : List Op) (paren : Bool := false) (orAsIn andAsIn inAllowWild notAsNotEq : Bool := false) :
     Cfg :=
